@@ -72,7 +72,10 @@ func MmapStor(filename string, mode Mode) (*Stor, error) {
 	if mode == Read {
 		remainder := size % mmapChunkSize
 		if remainder > 0 {
-			chunks[last] = chunks[last][:remainder] // last chunk not full
+			// last chunk not full
+			// limit the capacity as well, else reslicing (e.g. to a damaged length)
+			// can reach the part of the mapping past the end of the file (SIGBUS)
+			chunks[last] = chunks[last][:remainder:remainder]
 		}
 	}
 	// ignore trailing zero bytes (from memory mapping, if truncate failed)
